@@ -78,17 +78,19 @@ MaskData == <<0, 1, 2, 127, 128, 254, 255, 255, 16, 0, 255, 64>>
 Opacities == << <<1, 1>>, <<1, 2>>, <<0, 1>>, <<1, 4>>, <<254, 255>> >>
 
 (* the k-th drawing call of the product space; the parameters are independent mixed-radix *)
-(* digits of k: kind (11), shape (10), source (11), mode (28), alpha (5), aa (5), extra (60) *)
+(* digits of k: kind (11), shape (10), source (11), mode (32), alpha (5), aa (5), extra (60) *)
 DKind(k)  == k % 11
 DShape(k) == (k \div 11) % 10
 DSrc(k)   == (k \div 110) % 11
-DMode(k)  == (k \div 1210) % 28
-DAlpha(k) == (k \div 33880) % 5
-DAA(k)    == (k \div 169400) % 5
-DX(k)     == (k \div 847000) % 60
-Opts(k) == [blend |-> Modes[DMode(k) + 1], alpha |-> Alphas[DAlpha(k) + 1], aa |-> DAA(k) # 0]
+\* the mode digit has radix 32: the four extra values are SrcOver, by far the most used mode
+DMode(k)  == (k \div 1210) % 32
+DAlpha(k) == (k \div 38720) % 5
+DAA(k)    == (k \div 193600) % 5
+DX(k)     == (k \div 968000) % 60
+ModeOf(d) == IF d >= 28 THEN "SrcOver" ELSE Modes[d + 1]
+Opts(k) == [blend |-> ModeOf(DMode(k)), alpha |-> Alphas[DAlpha(k) + 1], aa |-> DAA(k) # 0]
 DrawCall(k0) ==
-  LET k == k0 % 50820000
+  LET k == k0 % 58080000
       kind == DKind(k)
       shape == Shapes[DShape(k) + 1]
       src == Sources[DSrc(k) + 1]
@@ -117,6 +119,11 @@ SetupMenu ==
          \cup {[op |-> "push_clip", path |-> ClipPaths[i]] : i \in {1, 2}}
          \cup {[op |-> "push_layer", opacity |-> Opacities[i], blend |-> Modes[((i * 7 + j) % 28) + 1]] : i \in 1..5, j \in 0..1}
          \cup {Transforms[3]}
+    [] FOCUS = "layerclip" ->      \* small menu explored to depth 3: clip rect (top > 0) x clip path x layer, any order
+         {[op |-> "push_clip_rect", r |-> ClipRects[1]], [op |-> "push_clip_rect", r |-> ClipRects[2]],
+          [op |-> "push_clip", path |-> ClipPaths[1]], [op |-> "push_clip", path |-> ClipPaths[2]],
+          [op |-> "push_layer", opacity |-> Opacities[1], blend |-> "SrcOver"],
+          [op |-> "push_layer", opacity |-> Opacities[2], blend |-> "Xor"]}
     [] FOCUS = "xform" ->
          {Transforms[i] : i \in 1..Len(Transforms)}
          \cup {[op |-> "push_clip_rect", r |-> ClipRects[1]], [op |-> "push_layer", opacity |-> <<1, 2>>, blend |-> "SrcOver"]}
@@ -146,7 +153,7 @@ DoSetup == /\ NSetup < D
                 /\ stk' = IF PushKind(c) = "none" THEN stk ELSE Append(stk, PushKind(c))
                 /\ hs' = (hs * 31 + CallHash(c)) % 1000003
            /\ UNCHANGED nd
-DoPop == /\ NSetup < D /\ stk # <<>> /\ (nd >= 1 \/ FOCUS \in {"clip", "layer"})
+DoPop == /\ NSetup < D /\ stk # <<>> /\ (nd >= 1 \/ FOCUS \in {"clip", "layer", "layerclip"})
          /\ calls' = Append(calls, [op |-> IF stk[Len(stk)] = "clip" THEN "pop_clip" ELSE "pop_layer"])
          /\ stk' = SubSeq(stk, 1, Len(stk) - 1)
          /\ hs' = (hs * 31 + 5) % 1000003
